@@ -122,9 +122,17 @@ func c15reads(env *core.Env) {
 		return false
 	}
 	env.Sample("repos=%v items=%d (presence per member varies) tags=%d", repos, len(items), len(tags))
+	// (members need not list referrers in any particular order - the interface
+	// promises one for repositories and tags only; the union is sorted all the same)
+	var members [2]ociregistry.Interface = [2]ociregistry.Interface{mems[0], mems[1]}
+	for i := range members {
+		if how := c.Int("member.referrers-order", 4); how > 0 {
+			members[i] = &referrersReordered{Interface: mems[i], how: how}
+		}
+	}
 	unis := [2]ociregistry.Interface{
-		ociunify.New(mems[0], mems[1], &ociunify.Options{ReadPolicy: ociunify.ReadSequential}),
-		ociunify.New(mems[0], mems[1], &ociunify.Options{ReadPolicy: ociunify.ReadConcurrent}),
+		ociunify.New(members[0], members[1], &ociunify.Options{ReadPolicy: ociunify.ReadSequential}),
+		ociunify.New(members[0], members[1], &ociunify.Options{ReadPolicy: ociunify.ReadConcurrent}),
 	}
 	polName := [2]string{"sequential", "concurrent"}
 	nq := c.Range("nqueries", 4, 14)
@@ -560,4 +568,37 @@ func membersDiffer(ctx context.Context, mems [2]*ocimem.Registry, m *reg.Model) 
 
 func u2resume(ctx context.Context, repo, id string, u ociregistry.Interface) (ociregistry.BlobWriter, error) {
 	return u.PushBlobChunkedResume(ctx, repo, id, -1, 0)
+}
+
+// referrersReordered is a member registry that lists referrers in an order of its own:
+// reversed (1), rotated by one (2), or odd positions before even ones (3).
+type referrersReordered struct {
+	ociregistry.Interface
+	how int
+}
+
+func (r *referrersReordered) Referrers(ctx context.Context, repo string, digest ociregistry.Digest, artifactType string) ociregistry.Seq[ociregistry.Descriptor] {
+	ds, err := ociregistry.All(r.Interface.Referrers(ctx, repo, digest, artifactType))
+	if err != nil {
+		return ociregistry.ErrorSeq[ociregistry.Descriptor](err)
+	}
+	switch r.how {
+	case 1:
+		slices.Reverse(ds)
+	case 2:
+		if len(ds) > 1 {
+			ds = append(ds[1:], ds[0])
+		}
+	case 3:
+		var odd, even []ociregistry.Descriptor
+		for i, d := range ds {
+			if i%2 == 1 {
+				odd = append(odd, d)
+			} else {
+				even = append(even, d)
+			}
+		}
+		ds = append(odd, even...)
+	}
+	return ociregistry.SliceSeq(ds)
 }
